@@ -11,12 +11,12 @@ import (
 	"os"
 	"sort"
 
+	"google.golang.org/protobuf/types/known/structpb"
 	kerrors "k8s.io/apimachinery/pkg/api/errors"
 	"k8s.io/apimachinery/pkg/apis/meta/v1/unstructured"
 	"k8s.io/apimachinery/pkg/runtime/schema"
 	"k8s.io/apimachinery/pkg/types"
 	"k8s.io/apimachinery/pkg/util/validation/field"
-	"google.golang.org/protobuf/types/known/structpb"
 	"sigs.k8s.io/controller-runtime/pkg/reconcile"
 
 	"github.com/crossplane/crossplane-runtime/pkg/resource"
@@ -50,11 +50,11 @@ type condVec struct {
 
 // condScript is what the scripted function returns in a conditions run.
 type condScript struct {
-	ready   map[string]bool
-	poison  map[string]bool
-	xr      string
-	conds   []*fnv1.Condition
-	fatal   bool
+	ready  map[string]bool
+	poison map[string]bool
+	xr     string
+	conds  []*fnv1.Condition
+	fatal  bool
 }
 
 func observed(u *unstructured.Unstructured) map[string]any {
